@@ -850,6 +850,21 @@ def shrink_case(case):
                     yield dict(case, envs=xs[:k] + [dict(r, branches=[brs[0][:-1]])] + xs[k + 1:])
 
 
+def feature_tags(case):
+    """what the follow-up round added to the generators, for the input-distribution histogram"""
+    tags = []
+    if case["kind"] == "builtin":
+        tags += sorted({"lrn:" + r["type"] for r in case["lrns"]})
+        tags += sorted({"val:" + r["type"] for r in case["vals"]})
+        if any(r.get("type") == "info" and r.get("fail_learn_at") is not None for r in case["lrns"]):
+            tags.append("lrn:info-then-raises")
+        if any(r.get("logged") for r in case["envs"]):
+            tags.append("env:logged")
+    elif any(r.get("skip_mult") is not None for r in case["vals"]):
+        tags.append("val:rowless-for-some-learner")
+    return tags
+
+
 def snippet_for(case, prop):
     return ("import sys, json; sys.path[:0] = ['/repo', '/verif/harness']\n"
             "from props.c01 import run_iso\n"
@@ -936,6 +951,7 @@ class C01(Property):
         kind = case["kind"]
         tags.append("kind:" + kind)
         tags.append("mode:" + case["mode"])
+        tags += feature_tags(case)
         runs = case["runs"]
         outs = []
         for run in runs:
